@@ -232,11 +232,60 @@ theorem unionBody_sim (hfx : X.fixed = true) (hp : Placed X b0 L0) (hh : HeadOK 
   · rw [h1]; exact Or.inr (Or.inl ⟨hB, rfl⟩)
   · rw [h1]; exact Or.inr (Or.inr ⟨e, rfl⟩)
 
-theorem deSimP (hfx : X.fixed = true) (hov : X.ovr = false) (hp : Placed X b0 L0) (hh : HeadOK X b0 L0) (t : Ty) :
+theorem zc_mod8 {t : Ty} (hz : zeroCost o t = true) : primBits t % 8 = 0 := by
+  cases t <;> simp [zeroCost, isStd, primBits] at hz ⊢
+  all_goals (rcases hz.2 with h | h <;> try (rcases h with h | h) <;> try (rcases h with h | h)) <;> omega
+
+theorem liftP_appR (x : Buf) (r : Except Bits.Err Buf) :
+    liftP (appR x r) = match liftP r with | .error e => .error e | .ok b => .ok (b ++ x) := by
+  cases r <;> rfl
+
+/-- decoding `count` elements into a member array of `s'` elements gives the same values as into one of `s ≥ s'`
+elements (the user-reduced capacity of `enable_override_variable_array_capacity`), as long as `count ≤ s'` -/
+theorem deElems_storN (t : Ty) (elem : Nat → Except Err (Val × Nat)) (count s' s : Nat) (hc : count ≤ s') (hs : s' ≤ s)
+    (hb : t = .bool → s' = s) (buf : Buf) (cap off : Nat) :
+    deElems o t elem count s' buf cap off = deElems o t elem count s buf cap off := by
+  by_cases hbool : t = .bool
+  · rw [hb hbool]
+  · rw [deElems_nonbool o t hbool, deElems_nonbool o t hbool]
+    split
+    · rename_i hz
+      have hm := zc_mod8 hz
+      have hsplit : List.replicate (s * (primBits t / 8)) (o.fill % 256) =
+          List.replicate (s' * (primBits t / 8)) (o.fill % 256) ++
+            List.replicate ((s - s') * (primBits t / 8)) (o.fill % 256) := by
+        rw [List.replicate_append_replicate, ← Nat.add_mul]
+        congr 2
+        omega
+      rw [hsplit, getBits_append _ _ _ _ _ _ (by
+        rw [List.length_replicate]
+        have : count * (primBits t / 8) ≤ s' * (primBits t / 8) := Nat.mul_le_mul_right _ hc
+        have e : count * primBits t = 8 * (count * (primBits t / 8)) := by
+          have : primBits t = 8 * (primBits t / 8) := by omega
+          calc count * primBits t = count * (8 * (primBits t / 8)) := by rw [← this]
+            _ = 8 * (count * (primBits t / 8)) := by rw [Nat.mul_left_comm]
+        omega), liftP_appR]
+      cases hg : liftP (getBits (List.replicate (s' * (primBits t / 8)) (o.fill % 256)) buf cap off (count * primBits t)) with
+      | error e => rfl
+      | ok r =>
+        simp only [Except.ok.injEq, Prod.mk.injEq, and_true]
+        apply List.map_congr_left
+        intro i hi
+        have hi' : i < count := List.mem_range.mp hi
+        have hl : r.length = s' * (primBits t / 8) := by
+          have := getBits_ok_length (liftP_ok hg)
+          rw [List.length_replicate] at this
+          exact this
+        have h1 : (i + 1) * (primBits t / 8) ≤ s' * (primBits t / 8) := Nat.mul_le_mul_right _ (by omega)
+        have h2 : i * (primBits t / 8) + primBits t / 8 ≤ r.length := by rw [hl, ← Nat.succ_mul]; exact h1
+        congr 1
+        rw [List.drop_append_of_le_length (by omega), List.take_append_of_le_length (by rw [List.length_drop]; omega)]
+    · rfl
+
+theorem deSimP (hfx : X.fixed = true) (hp : Placed X b0 L0) (hh : HeadOK X b0 L0)
+    (hle : ∀ t c, effCap X t c ≤ c) (hB : ∀ t c, effCap X t c < c → B) (t : Ty) :
     DeSimP o X b0 L0 B t := by
-  have hec : ∀ t c, effCap X t c = c := by
-    intro t c
-    simp [effCap, hov]
+  have hbool : ∀ c, effCap X .bool c = c := fun c => by simp [effCap, isBoolTy]
   refine Ty.ind (P := DeSimP o X b0 L0 B) ?_ ?_ ?_ ?_ ?_ ?_ ?_ ?_ ?_ ?_ t
   · intro n m
     refine ⟨fun pb d buf cap off hi => ?_, fun pb buf cap _ => Sim.rfl'⟩
@@ -261,20 +310,28 @@ theorem deSimP (hfx : X.fixed = true) (hov : X.ovr = false) (hp : Placed X b0 L0
         (ih.1 pb (d.add (AOff.rangeRep (resBits t) (n - 1) AOff.zero)) buf cap f hi)) n n buf cap off hi)
   · intro t c ih
     refine ⟨fun pb d buf cap off hi => ?_, fun pb buf cap _ => Sim.rfl'⟩
-    simp only [deAnyX, deAny, hec]
-    rcases deUintX_sim (B := B) hfx hp hh pb (prefixBits c) d buf cap off hi with h1 | ⟨hB, h1⟩ | ⟨e, h1⟩
+    simp only [deAnyX, deAny]
+    rcases deUintX_sim (B := B) hfx hp hh pb (prefixBits c) d buf cap off hi with h1 | ⟨hB', h1⟩ | ⟨e, h1⟩
     · rw [h1]
       cases deUint o (prefixBits c) d buf cap off with
       | error e => exact Sim.rfl'
       | ok count =>
         simp only
-        split
-        · exact Sim.rfl'
-        · apply assertC_sim
+        by_cases hc1 : count > effCap X t c
+        · simp only [hc1, if_true]
+          by_cases hc2 : count > c
+          · simp only [hc2, if_true]
+            exact Sim.rfl'
+          · exact Or.inr (Or.inl ⟨hB t c (by omega), rfl⟩)
+        · have hc2 : ¬ count > c := by have := hle t c; omega
+          simp only [hc1, hc2, if_false]
+          apply assertC_sim
+          rw [← deElems_storN (o := o) t _ count (effCap X t c) c (by omega) (hle t c)
+            (fun e => by rw [e]; exact hbool c) buf cap (off + prefixBits c)]
           sim_same (deElemsX_sim (B := B) hfx hp hh pb t
             (fun f => anyGuard_sim (o := o) t none (d.add (resBits (.varr t c))) f
-              (ih.1 pb (d.add (resBits (.varr t c))) buf cap f hi)) count c buf cap (off + prefixBits c) hi)
-    · rw [h1]; exact Or.inr (Or.inl ⟨hB, rfl⟩)
+              (ih.1 pb (d.add (resBits (.varr t c))) buf cap f hi)) count (effCap X t c) buf cap (off + prefixBits c) hi)
+    · rw [h1]; exact Or.inr (Or.inl ⟨hB', rfl⟩)
     · rw [h1]; exact Or.inr (Or.inr ⟨e, rfl⟩)
   · intro fs ih
     have hfn : ∀ pb buf cap, InvD o X b0 L0 pb buf →
